@@ -239,6 +239,16 @@ func lexSpec(s string) ([]tok, error) {
 						b.WriteByte('\t')
 					case '0':
 						b.WriteByte(0)
+					case 'x':
+						if j+2 < len(s) {
+							var v byte
+							if _, err := fmt.Sscanf(s[j+1:j+3], "%02x", &v); err == nil {
+								b.WriteByte(v)
+								j += 2
+								break
+							}
+						}
+						b.WriteByte('x')
 					default:
 						b.WriteByte(s[j])
 					}
